@@ -26,10 +26,10 @@ def check(ctx):
     ctx.rule("C03.T1", "tm == clock read of this execute() - stored machine start; the start is rewritten only on (re)start or cycle")
     ctx.rule("C03.T2", "state_tm == tm - entry time of this state (0 on an initial call entered by request, tm - predecessor expiry when entered by expiry)")
     ctx.rule("C03.A4", "every declared parameter receives a value of its own kind (number, number, bool) whatever the declaration order")
-    res = smcommon.run_universes(ctx, "StateMachine")
+    res = smcommon.run_universes(ctx, "StateMachine", owned=OWNED)
     ctx.floor("universes", len(res), 4)
     smcommon.report(ctx, res, OWNED, RENAME)
-    sig = smcommon.run_universes(ctx, "StateMachine", mode="sig")
+    sig = smcommon.run_universes(ctx, "StateMachine", mode="sig", owned=OWNED)
     ctx.floor("signature universes", len(sig), 16)
     sigs = set()
     for r in sig:
